@@ -710,3 +710,7 @@ pub(crate) mod parser {
             .parse(input)
     }
 }
+
+#[cfg(kani)]
+#[path = "/verif/kani/sel_selector.rs"]
+pub(super) mod kani_verif;
